@@ -292,3 +292,51 @@ pub fn all_commits(ledger: &RefLedger) -> Vec<Commitment> {
 	v.dedup();
 	v
 }
+
+/// Merkle proofs the node serves for unspent outputs (`Chain::get_merkle_proof` against the head header and
+/// `get_merkle_proof_for_pos` on the current state): each must verify against the REFERENCE output PMMR root for
+/// exactly that output at the reference position. `n` sampled unspent outputs (spread over old and new ones).
+/// Returns the number of proofs verified or the first failure.
+pub fn merkle_proof_probe(chain: &Chain, st: &RefState, prng: &mut crate::Prng, n: usize) -> Result<u64, String> {
+	use grin_core::core::pmmr;
+	use grin_core::core::OutputIdentifier;
+	let head_header = chain.head_header().map_err(|e| format!("head_header: {:?}", e))?;
+	if head_header.hash() != st.tip {
+		return Ok(0);
+	}
+	let root = st.out_mmr.root();
+	let size = st.out_mmr.size();
+	let mut idx: Vec<usize> = st.utxo.values().cloned().collect();
+	idx.sort_unstable();
+	if idx.is_empty() {
+		return Ok(0);
+	}
+	let mut picks: Vec<usize> = vec![idx[0], idx[idx.len() - 1], idx[idx.len() / 2]];
+	for _ in 0..n {
+		picks.push(idx[prng.usize_below(idx.len())]);
+	}
+	picks.sort_unstable();
+	picks.dedup();
+	let mut done = 0u64;
+	for i in picks {
+		let o = &st.outs[i];
+		let id = OutputIdentifier { features: o.features, commit: o.commit };
+		let pos0 = pmmr::insertion_to_pmmr_index(i as u64);
+		for via in ["get_merkle_proof", "get_merkle_proof_for_pos"] {
+			let r = if via == "get_merkle_proof" { chain.get_merkle_proof(id, &head_header) } else { chain.get_merkle_proof_for_pos(o.commit) };
+			match r {
+				Ok(proof) => {
+					if proof.mmr_size != size {
+						return Err(format!("{}: proof for unspent output #{} has mmr_size {} (reference {})", via, i, proof.mmr_size, size));
+					}
+					if let Err(e) = proof.verify(root, &id, pos0) {
+						return Err(format!("{}: proof for unspent output #{} (pos0 {}) does not verify against the reference output root: {:?}", via, i, pos0, e));
+					}
+					done += 1;
+				}
+				Err(e) => return Err(format!("{}: no proof for unspent output #{} (pos0 {}): {:?}", via, i, pos0, e)),
+			}
+		}
+	}
+	Ok(done)
+}
